@@ -1,14 +1,25 @@
 import Cfdm.Driver.Parse
 import Cfdm.Model.Settings
+import Cfdm.Model.SettingsFine
+import Cfdm.Model.SettingsCm
 /-
 Line protocol of C20.
 
-  C20.prog p=<program>     `<new>#<old>`: events of the program under the decorator as patched
-                           (`decoNew`), then under the decorator of 1.11.2.0 (`decoOld`); the
-                           harness compares with the first and uses the second only to
-                           recognise the known defects
-  C20.new / C20.old        one of the two alone
+  C20.prog p=<program>     `<new>#<mid>#<old>`: events of the program under `decoNew` (what the
+                           property demands), under the decorator after fixes/C20-verbose-scope.patch
+                           (`decoMidFine`, statement by statement) and under the decorator of 1.11.2.0
+                           (`decoOldFine`); the harness compares with the first and uses the other
+                           two only to recognise the known defects of the code as it is
+  C20.new / C20.mid / C20.old   one of the three alone
   C20.tab                  the enumeration table the model is built on
+  C20.cm ev=<events>       objects returned by setters / configuration used as context managers in
+                           any interleaving (suspended generators, re-entrancy):
+                             mk:<a|r|l>:<arg>  mkcfg:<a>:<r>:<l>  enter:<obj>  exit:<block>  set:<a|r|l>:<arg>
+  C20.fn f=<helper> …      the private helpers, from any logging state (lvl= root= dis=):
+                             f=dl arg=<_|e|NAME>          _disable_logging(at_level)   (e = "")
+                             f=valid arg=<int>            _is_valid_log_level_int
+                             f=reset arg=<c:NAME|i:INT|s:NAME>   _reset_log_emergence_level
+                             f=parse arg=<n…|i…>          log_level._parse
 
 Program syntax (no blanks):  stmt (';' stmt)*
   set:<a|r|l>:<arg>              arg: `_` no argument | t<k> | bad | n<NAME> | i<int>
@@ -19,6 +30,9 @@ Program syntax (no blanks):  stmt (';' stmt)*
   real:<k>:<verbose>:<o|x>:<inner>   decorated cfdm function number k; x = called so that it raises;
                                  inner = verbosity of the decorated call it makes itself (N = none)
   try{…}    raise:<V|T|K>    eq:<r>:<a>:<m>[:<how>]   (r, a: `_` or tolerance number; 8 = zero)
+  vd:<r>:<a>:<m>:<how>           the verdict of an `equals` of a cfdm class found by reflection; the call
+                                 itself follows as `real:…` (how: which class / where the operands differ /
+                                 how the numbers are spelled and passed — harness only)
 -/
 namespace Cfdm.Driver.C20
 open Cfdm.Driver Cfdm.Settings
@@ -88,6 +102,9 @@ def parseAtom (t : String) : Option Prog :=
     let inner ← parseVerbose inner
     some (.real v raises inner)
   | ["raise", e] => (parseExc e).map Prog.raise
+  | ["vd", r, a, m, _how] => do      -- the verdict of the decorated `equals` call that follows as `real:…`
+    let r ← parseOptNat r; let a ← parseOptNat a; let m ← m.toNat?
+    some (.verdict r a m)
   | ["eq", r, a, m] => do
     let r ← parseOptNat r; let a ← parseOptNat a; let m ← m.toNat?
     some (.eq r a m)
@@ -133,14 +150,80 @@ def runProg (d : Deco) (kv : KV) : String :=
   | none => "bad-op"
   | some p => String.intercalate ";" (fullTrace d p State.init)
 
-/-- Both predictions on one line: `<patched>#<unpatched>`.  The harness compares the
-implementation with the first; the second only serves to recognise the known defects. -/
+/-- The three predictions on one line: `<new>#<mid>#<old>`.  The harness compares the
+implementation with the first; the others only serve to recognise the known defects. -/
 def runBoth (kv : KV) : String :=
   match (do parseProg (← kv.get? "p")) with
   | none => "bad-op"
   | some p =>
     String.intercalate ";" (fullTrace decoNew p State.init) ++ "#" ++
-    String.intercalate ";" (fullTrace decoOld p State.init)
+    String.intercalate ";" (fullTrace decoMidFine p State.init) ++ "#" ++
+    String.intercalate ";" (fullTrace decoOldFine p State.init)
+
+/-! ### Objects as context managers -/
+
+def parseEv (t : String) : Option Ev :=
+  match t.splitOn ":" with
+  | ["mk", k, a] => (parseSetOp k a).map Ev.mk
+  | ["mkcfg", a, r, l] => (parseCfg a r l).map Ev.mkCfg
+  | ["enter", i] => i.toNat?.map Ev.enter
+  | ["exit", j] => j.toNat?.map Ev.exit
+  | ["set", k, a] => (parseSetOp k a).map Ev.set
+  | ["bare"] => some Ev.bare
+  | _ => none
+
+def runCm (kv : KV) : String :=
+  match (do
+    let e ← kv.get? "ev"
+    if e.isEmpty then some [] else (e.splitOn ";").mapM parseEv) with
+  | none => "bad-op"
+  | some es => String.intercalate ";" (traceEvs (CmState.init State.init) es)
+
+/-! ### The private helpers -/
+
+def parseLevelName (s : String) : Option Level := Level.all.find? (fun l => l.name == s)
+
+def parseState (kv : KV) : Option State := do
+  let l ← parseLevelName (← kv.get? "lvl")
+  let r ← (← kv.get? "root").toNat?
+  let d ← (← kv.get? "dis").toNat?
+  some { State.init with level := l, root := r, disable := d }
+
+def showRaw (s : State) : String := s!"l={s.level.name},root={s.root},dis={s.disable}"
+
+def showEff (e : Eff) : String :=
+  (match e.2 with | none => "ok" | some x => "raised:" ++ x.show) ++ "|" ++ showRaw e.1
+
+def parsePyLevel (s : String) : Option PyLevel :=
+  if s.startsWith "c:" then some (.const (s.drop 2).toString)
+  else if s.startsWith "s:" then some (.str (s.drop 2).toString)
+  else if s.startsWith "i:" then (parseInt? (s.drop 2).toString).map PyLevel.int
+  else none
+
+def runFn (kv : KV) : String :=
+  match (do
+    let f ← kv.get? "f"
+    let arg ← kv.get? "arg"
+    let s ← parseState kv
+    match f with
+    | "dl" =>
+      let a : Option String := if arg == "_" then none else if arg == "e" then some "" else some arg
+      some (showEff (disableLogging a s))
+    | "valid" => do
+      let i ← parseInt? arg
+      some ((match isValidLogLevelInt i with | .ok b => (if b then "T" else "F") | .error x => "raised:" ++ x.show)
+        ++ "|" ++ showRaw s)
+    | "reset" => do
+      let a ← parsePyLevel arg
+      some (showEff (resetLogEmergenceLevel a s))
+    | "parse" => do
+      let a ← parseLvl arg
+      let a ← a
+      let r := logLevelParse a s
+      some ((match r.1 with | some nm => "ret=" ++ nm ++ ";" | none => "") ++ showEff r.2)
+    | _ => none) with
+  | none => "bad-op"
+  | some out => out
 
 def showTable : String :=
   String.intercalate "," (Level.all.map (fun l => s!"{l.name}:{l.value}:{l.no}")) ++ s!" critical={critical}"
@@ -149,7 +232,10 @@ def run (sub : String) (kv : KV) : String :=
   match sub with
   | "prog" => runBoth kv
   | "new" => runProg decoNew kv
-  | "old" => runProg decoOld kv
+  | "mid" => runProg decoMidFine kv
+  | "old" => runProg decoOldFine kv
+  | "cm" => runCm kv
+  | "fn" => runFn kv
   | "tab" => showTable
   | _ => "bad-op"
 
